@@ -12,9 +12,37 @@ CONFIG = dict(want=["parsed", "moments"], builders=[C.b_source, C.b_moments])
 
 
 def main(tier, seed):
-    items = standard_items(seed, tier, 45, 400, bench_quick=20)
-    return analysis_check("C01", tier, seed, items=items, N=6 if tier == "quick" else 9,
-                          timeout=100 if tier == "quick" else 300, **CONFIG)
+    import random
+    from fractions import Fraction as F
+    from .. import progspace
+    quick = tier == "quick"
+    items = standard_items(seed, tier, 35 if quick else 400, 400, bench_quick=20)
+    # spec -> code: programs enumerated by TLC (spec/ProgSpace.tla) with their exact moment sequences
+    ps_items, ps_cov = progspace.items(2 if quick else 3, 4, sample=30 if quick else None, rng=random.Random(seed))
+    items += ps_items
+
+    def post(ctx):
+        run = ctx["run"]
+        compared = mismatches = 0
+        for suffix, results in ctx["results"].items():
+            for it in ps_items:
+                r = results.get(it["id"], {})
+                for g, go in (r.get("goals") or {}).items():
+                    if "values" not in go:
+                        continue
+                    for n, val in enumerate(go["values"][0][:5]):
+                        if "q" not in val:
+                            continue
+                        compared += 1
+                        if F(val["q"]) != it["spec_values"][g][n]:
+                            mismatches += 1
+                            run.violation({it["id"], f"{it['id']}:{g}"},
+                                          {"clause": "replay of a TLC-enumerated program: value differs from the specification's",
+                                           "program": it["text"], "goal": g, "n": n, "polar_value": val["q"],
+                                           "spec_value": str(it["spec_values"][g][n])})
+        return dict(ps_cov, progspace_values_compared=compared, progspace_mismatches=mismatches)
+    return analysis_check("C01", tier, seed, items=items, N=6 if quick else 9,
+                          timeout=100 if quick else 300, post=post, **CONFIG)
 
 
 def replay(path):
